@@ -589,6 +589,7 @@ void convertTDPStoBytes_float_reserve(TightDataPointStorageF* tdps, unsigned cha
 //convert TightDataPointStorageD to bytes...
 void convertTDPStoFlatBytes_float(TightDataPointStorageF *tdps, unsigned char** bytes, size_t *size)
 {
+	SZ_VERIF_YIELD(4);
 	size_t i, k = 0; 
 	unsigned char dsLengthBytes[8];
 	
